@@ -296,12 +296,69 @@ static void *c18_watchdog(void *arg)
     return NULL;
 }
 
+
+/* ------------------------------------------------------------------ unit mode: the conversion alone
+ * `rs su sdg du ddg m n ld`: real parsec_matrix_define_datatype for both shapes, a fresh destination copy from a real
+ * arena (poisoning allocator, what reshape_copy_allocate obtains), the real parsec_ce.reshape (parsec_mpi_sendrecv).
+ * Source tile: val(0, i).  Answer: `ok : <footprint of the destination>`; `rejected` when the source type is larger than the
+ * destination type (MPI_ERR_TRUNCATE: outside the precondition, not issued). */
+#include "parsec/parsec_comm_engine.h"
+#include "parsec/execution_stream.h"
+#include "parsec/vpmap.h"
+static int c18_unit(parsec_context_t *ctx)
+{
+    char line[512];
+    parsec_execution_stream_t *es = ctx->virtual_processes[0]->execution_streams[0];
+    /* the communication engine installs its function table when it is enabled (normally by the communication thread at
+     * parsec_context_start); no context is started in unit mode, so this thread is the only one that calls MPI */
+    if (NULL == parsec_ce.reshape && NULL != parsec_ce.enable) parsec_ce.enable(&parsec_ce);
+    if (NULL == parsec_ce.reshape) { fprintf(stderr, "C18: parsec_ce.reshape is not installed\n"); return 2; }
+    while (fgets(line, sizeof line, stdin)) {
+        int su, sdg, du, ddg, m, n, ld;
+        char *nl = strchr(line, '\n'); if (nl) *nl = 0;
+        if (!line[0]) continue;
+        fprintf(c18_out, "%s => ", line);
+        if (sscanf(line, "rs %d %d %d %d %d %d %d", &su, &sdg, &du, &ddg, &m, &n, &ld) != 7 || m < 1 || n < 1 || ld < m || ld * n > 4096
+            || (su != 121 && su != 122 && su != 123) || (du != 121 && du != 122 && du != 123)) { fprintf(c18_out, "bad-op\n"); continue; }
+        parsec_datatype_t ts, td; ptrdiff_t es_ext, ed_ext; int ssz, dsz;
+        if (parsec_matrix_define_datatype(&ts, parsec_datatype_int32_t, su, sdg, m, n, ld, -1, &es_ext) != PARSEC_SUCCESS ||
+            parsec_matrix_define_datatype(&td, parsec_datatype_int32_t, du, ddg, m, n, ld, -1, &ed_ext) != PARSEC_SUCCESS) { fprintf(c18_out, "define-failed\n"); continue; }
+        MPI_Type_size(ts, &ssz); MPI_Type_size(td, &dsz);
+        if (ssz > dsz) { fprintf(c18_out, "rejected\n"); parsec_type_free(&ts); parsec_type_free(&td); continue; }
+        int foot = (n - 1) * ld + m;
+        int32_t *src = malloc(sizeof(int32_t) * (size_t)ld * n);
+        for (int i = 0; i < ld * n; i++) src[i] = c18_val(0, i);
+        parsec_data_copy_t *sc = PARSEC_OBJ_NEW(parsec_data_copy_t);
+        sc->device_private = src; sc->dtt = ts;
+        parsec_arena_t *ar = PARSEC_OBJ_NEW(parsec_arena_t);
+        parsec_arena_construct_ex(ar, (size_t)ed_ext, PARSEC_ARENA_ALIGNMENT_SSE, SIZE_MAX, 0);
+        ar->data_malloc = c18_alloc; ar->data_free = c18_free;
+        parsec_data_copy_t *dc = parsec_arena_get_new_copy(ar, 1, 0, td);
+        int rc = parsec_ce.reshape(&parsec_ce, es, dc, 0, td, 1, sc, 0, ts, 1);
+        int32_t *d = (int32_t *)PARSEC_DATA_COPY_GET_PTR(dc);
+        fprintf(c18_out, rc == 0 ? "ok :" : "error :");
+        for (int i = 0; i < foot; i++) fprintf(c18_out, " %d", d[i]);
+        fprintf(c18_out, "\n");
+        /* the source must be untouched */
+        for (int i = 0; i < ld * n; i++) if (src[i] != c18_val(0, i)) { fprintf(c18_out, "!viol the conversion %s modified its source at offset %d\n", line, i); break; }
+        /* nothing may be written past the destination's arena element (the block is 64-byte padded and poisoned) */
+        { int blk = c18_blk_of(d); if (blk >= 0) { int32_t *e = (int32_t *)(c18_blks[blk].base + c18_blks[blk].size); int32_t *q = d + ed_ext / 4;
+            for (; q + 1 <= e; q++) if (*q != C18_POISON) { fprintf(c18_out, "!viol the conversion %s wrote past the destination element\n", line); break; } } }
+        PARSEC_DATA_COPY_RELEASE(dc);
+        PARSEC_OBJ_RELEASE(ar);
+        sc->device_private = NULL; PARSEC_OBJ_RELEASE(sc);
+        free(src);
+        parsec_type_free(&ts); parsec_type_free(&td);
+    }
+    return 0;
+}
+
 typedef parsec_taskpool_t *(*c18_make_fn)(parsec_data_collection_t *dc, int nt);
 typedef void (*c18_unmake_fn)(parsec_taskpool_t *tp);
 
 int c18_rt_main(int argc, char **argv, c18_make_fn mk, c18_unmake_fn unmk)
 {
-    int threads = 2, rc, mt = 0;
+    int threads = 2, rc, mt = 0, unit = 0;
     const char *outfile = NULL;
     int pargc = 0; char **pargv = NULL;
     for (int i = 1; i < argc; i++) {
@@ -313,6 +370,7 @@ int c18_rt_main(int argc, char **argv, c18_make_fn mk, c18_unmake_fn unmk)
         else if (!strcmp(argv[i], "-l") && i + 1 < argc) c18_ld = atoi(argv[++i]);
         else if (!strcmp(argv[i], "-M") && i + 1 < argc) mt = atoi(argv[++i]);
         else if (!strcmp(argv[i], "-o") && i + 1 < argc) outfile = argv[++i];
+        else if (!strcmp(argv[i], "-U")) unit = 1;
         else { fprintf(stderr, "usage: %s [-t threads] [-n tiles] [-m MB] [-N NB] [-l LD] [-M 0|1] [-o out] [-- parsec args]\n", argv[0]); return 2; }
     }
     if (c18_mb < 1 || c18_nb < 1 || c18_ld < c18_mb) { fprintf(stderr, "C18: bad tile geometry\n"); return 2; }
@@ -331,6 +389,13 @@ int c18_rt_main(int argc, char **argv, c18_make_fn mk, c18_unmake_fn unmk)
     }
     parsec_context_t *ctx = parsec_init(threads, &pargc, &pargv);
     if (!ctx) { fprintf(stderr, "parsec_init failed\n"); return 2; }
+    if (unit) {
+        rc = c18_unit(ctx);
+        fflush(c18_out);
+        parsec_fini(&ctx);
+        MPI_Finalize();
+        return rc;
+    }
     c18_make_adts();
     c18_dc = c18_dc_new(c18_rank, c18_world, c18_nt);
     parsec_taskpool_t *tp = mk(&c18_dc->super, c18_nt);
